@@ -3,6 +3,7 @@ import Holpy.C09.Proofs
 import Holpy.C09.ProofsAbs
 import Holpy.C09.ProofsAbsSound
 import Holpy.C09.ProofsSem3
+import Holpy.C09.ProofsTerm
 /-
 C09 — property theorems (statements only; helper lemmas and the specification vocabulary
 `Ext`, `Below`, `isFO`, `SigmaOK`, `applyInst` are in Proofs.lean).
@@ -253,6 +254,39 @@ example : headOf (.comb (.svar "F" (Ty.fn Ex.nat Ex.nat)) (.var "u" Ex.nat)) = .
       (argsOf (.comb (.svar "F" (Ty.fn Ex.nat Ex.nat)) (.var "u" Ex.nat))) (.comb Ex.p (.var "u" Ex.nat))
       = .ok ⟨[], [("F", Ex.p)], [], []⟩ :=
   ⟨rfl, rfl, rfl⟩
+
+
+/-! ### termination of the recursion (the fuel of the model) -/
+
+/-- TERMINATION, first-order class (no schematic variable applied to anything; binders allowed),
+unconditional: with fuel at least twice the size of the pattern the model never answers `fuel`,
+whatever the target, the seed and the beta-normalisation fuel.  (One call per node of the pattern,
+plus one per abstraction for the eta-expansion of a target that is not an abstraction.) -/
+theorem fo_match_terminates (bf fuel : Nat) (pat t : Term) (inst : MInst) (hfo : isFOB pat = true)
+    (hfuel : 2 * termSize pat ≤ fuel) : firstOrderMatch bf fuel pat t inst ≠ .error .fuel :=
+  matchAux_fob_nofuel bf fuel [] inst pat t hfo (Or.inl hfuel)
+
+example : isFOB Ex.patB = true ∧ 2 * termSize Ex.patB ≤ 12 := ⟨rfl, by decide⟩
+
+/-- TERMINATION, higher-order patterns: the same bound `2 * size(pattern)` suffices for every
+pattern whose applied schematic variables are met uninstantiated (`Safe B pat` with `B` containing
+the names the seed binds: an applied variable is not in `B` and does not occur in the sibling
+sub-pattern) — first-order, binder, eta-expansion, Miller and heuristic branches.  Then the branch
+that beta-normalises `inst[f] a1 … an` and matches the normal form again is never entered; that
+branch is the only place where the recursion is not bounded by the pattern (its argument is a
+beta-normal form, and `beta_norm` has its own fuel), so for patterns that do re-use an applied
+variable termination is NOT proved (it would need strong normalisation of the instances).
+Also: the bindings added by a successful match are schematic variables of the pattern. -/
+theorem match_fuel_suffices (bf fuel : Nat) (pat t : Term) (inst : MInst) (B : List String) (hs : Safe B pat)
+    (hB : Dom inst B) (hfuel : 2 * termSize pat ≤ fuel) :
+    firstOrderMatch bf fuel pat t inst ≠ .error .fuel ∧
+    ∀ inst', firstOrderMatch bf fuel pat t inst = .ok inst' → DomSub inst inst' pat :=
+  matchAux_safe bf fuel [] inst pat t B hs hB (Or.inl hfuel)
+
+example : Safe [] Ex.patM ∧ Dom MInst.empty [] ∧ 2 * termSize Ex.patM ≤ 10 ∧
+    Safe [] Ex.patHO ∧ 2 * termSize Ex.patHO ≤ 20 :=
+  ⟨by simp [Ex.patM, Safe, headOf], fun m hm => by simp [MInst.empty] at hm, by decide,
+   by simp [Ex.patHO, Safe, headOf, svarNamesOf, Ex.plus], by decide⟩
 
 /-- First-order patterns whose schematic variables are used at their declared types `D`: if the
 seed is well-typed (every bound declared variable carries a term of its declared type under the
